@@ -996,7 +996,7 @@ def utc(dt):
             timespan(hours => 3)).utc.hour
         13
     """
-    return dt - dt.utcoffset()
+    return dt.astimezone(UTCTZ)
 
 
 @specs.yaql_property(DATETIME_TYPE)
